@@ -169,7 +169,7 @@ Proof.
   destruct H as [->|H]; [lia|]. apply IH in H. lia.
 Qed.
 
-Lemma clamped_bound counts cl M : (forall c, In c counts -> N.max c cl <= M) ->
+Lemma clamped_le_mul counts cl M : (forall c, In c counts -> N.max c cl <= M) ->
   clamped_total counts cl <= N.of_nat (length counts) * M.
 Proof.
   induction counts as [|x counts IH]; intros H; [cbn; lia|].
@@ -279,7 +279,7 @@ Proof.
   assert (Hlen1 : (2 <= length counts)%nat).
   { pose proof (length_S0_le counts). lia. }
   assert (Hct : clamped_total counts (2 ^ r0) < 2 ^ 32 - 1).
-  { eapply N.le_lt_trans; [apply (clamped_bound counts (2 ^ r0) (2 ^ r0))|].
+  { eapply N.le_lt_trans; [apply (clamped_le_mul counts (2 ^ r0) (2 ^ r0))|].
     - intros c Hc. pose proof (max_ge counts c Hc). fold M in H. lia.
     - remember (N.of_nat (length counts)) as L. remember (2 ^ r0) as P.
       assert (L * P <= L * (2 * M)) by (apply N.mul_le_mono_l; lia). lia. }
